@@ -343,3 +343,32 @@ Definition page_of_payments_target (s : st) (t : bytes) (rq : page_req)
                                 end) acc, resp)
   | None => None
   end.
+
+(** ---- the arithmetic BEFORE commit 9f0ea4287 (kept for the refutation C13_max_limit_unclamped_refuted) ----
+    filteredPaginateAfterOrder without the clamp: [end := offset + limit] and [end + 1] are plain
+    uint64 arithmetic, exactly as in query.FilteredPaginate. *)
+Definition filtered_paginate_after_order_unclamped {V : Type} (hit : key -> V -> bool)
+           (l : list (key * V)) (rq : page_req) (after : N) : option (list (key * V) * page_resp) :=
+  if (0 <? pr_offset rq) && negb (is_nil (pr_key rq)) then None else
+  let limit := if pr_limit rq =? 0 then default_limit else pr_limit rq in
+  let count_total := if pr_limit rq =? 0 then true else pr_count_total rq in
+  if negb (is_nil (pr_key rq)) then
+    match get_order_iterator l (pr_key rq) (pr_reverse rq) after with
+    | None => None
+    | Some it =>
+        let '(acc, next) := fpao_key_loop V hit it 0 limit [] in
+        Some (acc, {| ps_next := opt_key next; ps_total := 0 |})
+    end
+  else
+    match get_order_iterator l [] (pr_reverse rq) after with
+    | None => None
+    | Some it =>
+        let end_ := wrap64 (pr_offset rq + limit) in
+        let '(acc, next, n) := offset_loop V hit it 0 (pr_offset rq) end_ count_total None [] in
+        Some (acc, {| ps_next := opt_key next; ps_total := if count_total then n else 0 |})
+    end.
+
+(** The request a client sends to get "everything in one page": the SDK's PaginationMaxLimit. *)
+Definition max_limit_req (offset : N) (count_total reverse : bool) : page_req :=
+  {| pr_key := []; pr_offset := offset; pr_limit := u64max; pr_count_total := count_total;
+     pr_reverse := reverse |}.
